@@ -63,7 +63,10 @@ impl WireFormat for TimeInterval {
 
 impl From<Duration> for TimeInterval {
     fn from(duration: Duration) -> Self {
-        let val = (duration.nanos().to_bits() >> 16) as i64;
+        // Saturate instead of silently wrapping when the duration does not fit
+        // in 48.16 bits (IEEE 1588-2019 7.3.3.6 prescribes the largest value
+        // for intervals that are too big to be represented).
+        let val = (duration.nanos().to_bits() >> 16).clamp(i64::MIN as i128, i64::MAX as i128) as i64;
         TimeInterval(fixed::types::I48F16::from_bits(val))
     }
 }
